@@ -15,7 +15,7 @@ ASSUMPTIONS = ["the comparison is against the library's own computation on a fre
 NSHARDS = {"quick": 32, "thorough": 64}
 BUDGET_S = {"quick": 200, "thorough": 2400}
 MIN_HITS = {
-    'quick': {"history": 8281, "sighash_step": 8197, "probe": 101439, "mut_after_fill": 2141, "slots_nonempty": 10024, "op_set_input": 5952, "op_set_output": 4447, "long_history": 48},
+    'quick': {"history": 8377, "sighash_step": 8677, "probe": 104328, "mut_after_fill": 2238, "slots_nonempty": 10571, "op_set_input": 6010, "op_set_output": 4479, "long_history": 48},
     'thorough': {"history": 139802, "sighash_step": 935724, "probe": 4768161, "mut_after_fill": 66234, "op_set_input": 614446, "op_set_output": 460201, "long_history": 5760},
 }
 
@@ -143,12 +143,8 @@ def step_of(sym, pos, model, r=None):
             return None
         flag = int(sym[2:], 16)
         idx = pick(n_in)
-        if (flag & 0x1F) == 3 and idx >= n_out:
-            if n_out == 0:
-                return None
-            idx = min(idx, n_out - 1)
-            if idx >= n_in:
-                return None
+        # SINGLE at an input index without a matching output is kept as a step: the library may refuse it, but it must refuse it on the
+        # live object exactly when it refuses it on a fresh parse
         st = {"op": "sighash", "flag": flag, "idx": idx, "script": "76a914" + "11" * 20 + "88ac", "value": 1000 + pos}
         if sym.startswith("sg"):
             st["op"] = "sign"
@@ -211,6 +207,9 @@ def cases(ctx):
     # histories that start from an empty transaction built only through the API
     for _ in range(300 if thorough else 6):
         L = r.choice([6, 10, 20])
+        # transactions that still have NO outputs while the cache is filled, then get outputs in bulk / one by one
+        syms0 = ["add_input", r.choice(["sh41", "shc1", "sg41"]), r.choice(["add_outputs2", "add_output", "insert_output_end", "prepend_output"]), "sh41", "shc1"] + r.choices(syms_all, k=L // 2)
+        yield {"k": "hist", "init": None, "steps": build_history(syms0, r, empty=True), "probes": PROBES, "tag": "from_empty"}
         syms = ["add_input", "add_output"] + r.choices(syms_all, k=L)
         yield {"k": "hist", "init": None, "steps": build_history(syms, r, empty=True), "probes": PROBES, "tag": "from_empty"}
 
